@@ -80,6 +80,7 @@ type vfWorld struct {
 	knownHits map[string]int
 	watch     *vfWatcher
 	variant   string
+	panicProp string // property a handler panic is attributed to in this run (default C19; C13/C14 under store/IdP faults)
 }
 
 func vfNewWorld(t *testing.T, prop, tier string, tape *vfTape) *vfWorld {
@@ -110,7 +111,7 @@ func (w *vfWorld) logf(kind, format string, args ...interface{}) int {
 	w.seq++
 	d := time.Since(w.start)
 	line := fmt.Sprintf("%05d t=%d.%03d %-8s %s", w.seq, int64(d/time.Second), int64(d%time.Second/time.Millisecond), kind, fmt.Sprintf(format, args...))
-	if len(w.log) < 20000 {
+	if len(w.log) < 60000 || kind == "VIOLATE" || kind == "known" {
 		w.log = append(w.log, line)
 	}
 	return w.seq
